@@ -40,7 +40,7 @@ REAL = ['py4hw.simulation.Simulator (topologicalSort, propagateAll, clk)', 'py4h
 STUB = ['stimulus (wire.put between clk calls)']
 ASSUMPTIONS = ['reference models in dsim/catalog.py state the documented function of each block',
                'netlists up to ~150 leaves / chains up to 900 deep (thorough); widths up to 70']
-PROBES = ['creation_refused_then_retried', 'wires_renamed_before_sort', 'simulator_through_constructor', 'settled_by_clk0', 'gated_top_driver', 'simulator_before_cycle_closed', 'const_update', 'stop_cancel', 'sorter_needed_repair', 'cyclic_refused', 'reg_cycle_accepted', 'late_add', 'antidataflow_block']
+PROBES = ['observed_from_listener', 'creation_refused_then_retried', 'wires_renamed_before_sort', 'simulator_through_constructor', 'settled_by_clk0', 'gated_top_driver', 'simulator_before_cycle_closed', 'const_update', 'stop_cancel', 'sorter_needed_repair', 'cyclic_refused', 'reg_cycle_accepted', 'late_add', 'antidataflow_block']
 
 STATEFUL_LEAVES = {'Latch', 'AsynchronousMemory', 'BidirBuf'}
 
@@ -97,6 +97,7 @@ def gen(rs, tier, index):
     scn['rename'] = rs.sub('rename') if fr.random() < 0.2 else None
     # the simulator is obtained through its public constructor (as test/interactive/tb_Bits.py does) instead of getSimulator()
     scn['ctor'] = fr.random() < 0.2
+    scn['observer'] = fr.random() < 0.25
     sr = rs.get('stimulus')
     steps = []
     prev = None
@@ -289,6 +290,19 @@ def run(scn, log, st):
     if any(KINDS[n['kind']].seq for n in d['nodes']) and any(
             netlist.parse_ref(r)[0] == 'n' and netlist.parse_ref(r)[1] >= n['id'] for n in d['nodes'] for r in n['ins']):
         st.probe('reg_cycle_accepted')
+    if scn.get('observer'):
+        # a simulator listener (a checker, a scope) that looks at the netlist at every callback: what it sees is settled
+        class _Observer:
+            def __init__(self_):
+                self_.sim = sim
+                self_.n = 0
+
+            def simulatorUpdated(self_):
+                self_.n += 1
+                local_fixpoint(self_.sim, self_.n, 'inside a listener callback (%d)' % self_.n)
+        observer = _Observer()
+        sim.addListener(observer)
+        st.probe('observed_from_listener')
     for si, step in enumerate(scn['steps'], 1):
         for f in step['faults']:
             if f == 'resort':
@@ -302,6 +316,8 @@ def run(scn, log, st):
                 sim.propagateAll()
                 st.fault('extra_settle')
             st.nontrivial = True
+            if scn.get('observer'):
+                observer.sim = sim
         if step.get('const'):
             nid, v = step['const']
             if nid in b.objs:
